@@ -223,7 +223,7 @@ class AsyncSocket(base_socket.BaseSocket):
         self.server.logger.info(
             '%s: Upgrade to websocket successful', self.sid)
 
-        while True:
+        while not self.closed:
             p = None
             wait_task = asyncio.ensure_future(websocket_wait())
             try:
